@@ -101,9 +101,13 @@ NoUnderBuild ==
 \* at most once per run (C05, C07, C14)
 \* (a target named on the command line of a forced `redo` is rebuilt by that request
 \* even if a dependent already brought it up to date: one extra run, as in a serial build)
-Forced(t) == (cmd.kind = "redo" /\ t \in {NormAt(cmd.cwd, cmd.targs[i]) : i \in 1..Len(cmd.targs)}) \/ t \in gh.inner
-NoDupRun == \A t \in Plain :
-               Cardinality({i \in 1..Len(ran) : ran[i] = t}) <= (IF Forced(t) THEN 2 ELSE 1)
+CmdOf(r) == IF r = Top THEN cmd ELSE cmd.c2
+ForcedBy(r, t) == (CmdOf(r).kind = "redo" /\ t \in {NormAt(CmdOf(r).cwd, CmdOf(r).targs[i]) : i \in 1..Len(CmdOf(r).targs)})
+                  \/ t \in gh.inner
+Forced(t) == ForcedBy(Top, t)
+\* (per top-level command when two run at the same time: each is a run of its own)
+NoDupRun == \A t \in Plain : \A r \in {Top, Top2} :
+               Cardinality({i \in 1..Len(ran) : ran[i] = t /\ gh.ranr[i] = r}) <= (IF ForcedBy(r, t) THEN 2 ELSE 1)
 
 (***************************************************************************)
 (* C04 / C11                                                               *)
@@ -168,7 +172,7 @@ ScriptUnderLock == \A t \in Plain : LiveScripts(t) # {} => locks[t] # NoPid
 \* (Fresh then says its targets are right, also after later edits)
 RecoversOk == (AfterCmd /\ gh.crashes > 0 /\ ~gh.crashNow) => LastH.rc = 0
 
-ProcOrEnd == ProcStep \/ EndBuild
+ProcOrEnd == ProcStep \/ EndBuild \/ EndPar
 \* some process can always move while a command is in flight (F_SETLKW on a lock that is
 \* never released, or a wait for a token that never comes, shows up here)
 NotHung == Quiet \/ ENABLED ProcOrEnd
@@ -178,6 +182,28 @@ NoPanic == \A p \in DOMAIN procs : procs[p].rc # 101
 \* a command on a program whose requested targets lead back to a target being built
 \* fails, and some job status identifies the cyclic dependency (208)
 CycleReported == AfterCmd => (LastH.rc # 0 /\ 208 \in LastH.codes /\ 101 \notin LastH.codes)
+
+(***************************************************************************)
+(* Two commands at the same time (C06, C16 at the level of outcomes)       *)
+(***************************************************************************)
+AfterPar == Quiet /\ hist # << >> /\ LastH.a = "par"
+ParCmds  == {LastH.c1, LastH.c2}
+TargsOf(c) == {NormAt(c.cwd, c.targs[i]) : i \in 1..Len(c.targs)}
+
+\* each of the two commands that exits 0 leaves its targets and everything below them as a from-scratch build would
+ParFresh == AfterPar => \A c \in ParCmds : c.rc = 0 => \A n \in Closure(TargsOf(c)) : ReadVal(n) = Ideal(n)
+
+\* a command that needed a target whose script failed while the pair ran does not exit 0 (the scripts of the
+\* programs used fail deterministically)
+ParFailPropagates == AfterPar => \A c \in ParCmds : c.rc = 0 => Closure(TargsOf(c)) \cap gh.fails = {}
+
+\* (Not a property: "two redo-ifchange at the same time run a script once between them".  The command with the lower run
+\* id that looks at a target the other one has just built finds changed_runid above its own run id - "changed later than
+\* I started" - and builds it a second time: deps.rs `changed_runid > max_changed`.  Exercised by the pair programs and
+\* confirmed by the replays; per command NoDupRun holds.)
+
+\* nothing is left at $3 of a target that was built
+ParNoTmpLeft == AfterPar => \A x \in tmp : x[1] \in TmpFiles
 
 (***************************************************************************)
 (* C17                                                                     *)
